@@ -93,6 +93,9 @@ func (g *Gen) verifyFunction(fn *ssa.Function, sp *FuncSpec) *FnCtx {
 		reqs = append(reqs, f)
 		fc.assume(f, "precondition "+c.Text)
 	}
+	for _, c := range fc.globalInvs() {
+		fc.assume(env.bool(c.Expr), "global invariant "+c.Site+" on entry")
+	}
 	runSt := entry
 	for _, gi := range sp.GhostInits {
 		names := fc.g.modEntryNames(fc, sp, "ghost "+gi[0])
@@ -191,6 +194,10 @@ func (g *Gen) verifyFunction(fn *ssa.Function, sp *FuncSpec) *FnCtx {
 			renv.names["result"] = r.res[0]
 		}
 		suffix := ""
+		for _, c := range fc.globalInvs() {
+			fc.addObligAt(&Oblig{Name: fmt.Sprintf("%s/global-inv:%s", sp.Name, c.Site), Kind: "ensures", Tags: c.Tags,
+				goal: sImp(r.guard, renv.bool(c.Expr)), Text: "global invariant " + c.Site + ": " + c.Text, Spec: c}, r.block, r.seq)
+		}
 		for _, c := range sp.Ensures {
 			if !fc.modeOK(c) || c.GhostDef {
 				continue
